@@ -504,5 +504,23 @@ def main(tier):
     return ck.finish()
 
 
+def replay(path):
+    """./check C07 --replay <file>: re-execute one recorded case on the real code."""
+    doc = json.load(open(path))
+    c, e = doc["case"], doc.get("expected")
+    print("\n".join(scenic_lines(c)[0]))
+    rr = run_program([c])
+    if "error" in rr:
+        print("real code failed:", rr["error"])
+        return 1
+    o = rr["obs"][c["id"]]
+    print("expected:", json.dumps(e))
+    print("observed:", json.dumps(o))
+    bad, rot_dev = compare(c, e, o) if e else ([], False)
+    for w, x, y in bad:
+        print(f"DIFFERS {w}: expected {x} observed {y}" + (" (matches the as-implemented deviation " + e["dev"] + ")" if rot_dev and w == "orientation" else ""))
+    return 1 if bad else 0
+
+
 if __name__ == "__main__":
     sys.exit(main(sys.argv[1] if len(sys.argv) > 1 else "quick"))
